@@ -168,8 +168,13 @@ func (eval RingPackingEvaluator) extract(ct *Ciphertext, idx map[int]bool, naive
 				for j := range ciphertexts {
 					if (j>>i)&1 == 1 {
 						ct := ciphertexts[j]
-						ringQ.MulCoeffsMontgomery(ct.Value[0], XInvPow2NTT[i], ct.Value[0])
-						ringQ.MulCoeffsMontgomery(ct.Value[1], XInvPow2NTT[i], ct.Value[1])
+						if ct.IsNTT {
+							ringQ.MulCoeffsMontgomery(ct.Value[0], XInvPow2NTT[i], ct.Value[0])
+							ringQ.MulCoeffsMontgomery(ct.Value[1], XInvPow2NTT[i], ct.Value[1])
+						} else {
+							ringQ.MultByMonomial(ct.Value[0], -(1 << i), ct.Value[0])
+							ringQ.MultByMonomial(ct.Value[1], -(1 << i), ct.Value[1])
+						}
 					}
 				}
 			}
@@ -230,7 +235,11 @@ func (eval RingPackingEvaluator) Split(ctN, ctEvenNHalf, ctOddNHalf *Ciphertext)
 	// Maps to smaller ring degree X -> Y = X^{2}
 
 	*ctEvenNHalf.MetaData = *ctN.MetaData
-	SwitchCiphertextRingDegreeNTT(ctTmp.El(), r, ctEvenNHalf.El())
+	if ctN.IsNTT {
+		SwitchCiphertextRingDegreeNTT(ctTmp.El(), r, ctEvenNHalf.El())
+	} else {
+		SwitchCiphertextRingDegree(ctTmp.El(), ctEvenNHalf.El())
+	}
 	ctEvenNHalf.LogDimensions.Cols--
 
 	// Maps to smaller ring degree X -> Y = X^{2}
@@ -241,9 +250,15 @@ func (eval RingPackingEvaluator) Split(ctN, ctEvenNHalf, ctOddNHalf *Ciphertext)
 		}
 
 		*ctOddNHalf.MetaData = *ctN.MetaData
-		r.MulCoeffsMontgomery(ctTmp.Value[0], eval.XInvPow2NTT[LogN][0], ctTmp.Value[0])
-		r.MulCoeffsMontgomery(ctTmp.Value[1], eval.XInvPow2NTT[LogN][0], ctTmp.Value[1])
-		SwitchCiphertextRingDegreeNTT(ctTmp.El(), r, ctOddNHalf.El())
+		if ctN.IsNTT {
+			r.MulCoeffsMontgomery(ctTmp.Value[0], eval.XInvPow2NTT[LogN][0], ctTmp.Value[0])
+			r.MulCoeffsMontgomery(ctTmp.Value[1], eval.XInvPow2NTT[LogN][0], ctTmp.Value[1])
+			SwitchCiphertextRingDegreeNTT(ctTmp.El(), r, ctOddNHalf.El())
+		} else {
+			r.MultByMonomial(ctTmp.Value[0], -1, ctTmp.Value[0])
+			r.MultByMonomial(ctTmp.Value[1], -1, ctTmp.Value[1])
+			SwitchCiphertextRingDegree(ctTmp.El(), ctOddNHalf.El())
+		}
 		ctOddNHalf.LogDimensions.Cols--
 	}
 
@@ -344,8 +359,13 @@ func (eval RingPackingEvaluator) repack(cts map[int]*Ciphertext, naive bool) (ct
 					if b != nil {
 
 						//X^(N/2^L)
-						ringQ.MulCoeffsMontgomery(b.Value[0], XPow2NTT[len(XPow2NTT)-i-1], b.Value[0])
-						ringQ.MulCoeffsMontgomery(b.Value[1], XPow2NTT[len(XPow2NTT)-i-1], b.Value[1])
+						if b.IsNTT {
+							ringQ.MulCoeffsMontgomery(b.Value[0], XPow2NTT[len(XPow2NTT)-i-1], b.Value[0])
+							ringQ.MulCoeffsMontgomery(b.Value[1], XPow2NTT[len(XPow2NTT)-i-1], b.Value[1])
+						} else {
+							ringQ.MultByMonomial(b.Value[0], t, b.Value[0])
+							ringQ.MultByMonomial(b.Value[1], t, b.Value[1])
+						}
 
 						if a != nil {
 							// a = a + b * X^{N/2^{i}}
@@ -438,12 +458,26 @@ func (eval RingPackingEvaluator) Merge(ctEvenNHalf, ctOddNHalf, ctN *Ciphertext)
 	ctTmp := NewCiphertext(eval.Parameters[LogN], 1, ctN.Level())
 
 	*ctN.MetaData = *ctEvenNHalf.MetaData
-	SwitchCiphertextRingDegreeNTT(ctEvenNHalf.El(), r, ctN.El())
 
-	if ctOddNHalf != nil {
-		SwitchCiphertextRingDegreeNTT(ctOddNHalf.El(), r, ctTmp.El())
-		r.MulCoeffsMontgomeryThenAdd(ctTmp.Value[0], eval.XPow2NTT[LogN][0], ctN.Value[0])
-		r.MulCoeffsMontgomeryThenAdd(ctTmp.Value[1], eval.XPow2NTT[LogN][0], ctN.Value[1])
+	if ctEvenNHalf.IsNTT {
+		SwitchCiphertextRingDegreeNTT(ctEvenNHalf.El(), r, ctN.El())
+
+		if ctOddNHalf != nil {
+			SwitchCiphertextRingDegreeNTT(ctOddNHalf.El(), r, ctTmp.El())
+			r.MulCoeffsMontgomeryThenAdd(ctTmp.Value[0], eval.XPow2NTT[LogN][0], ctN.Value[0])
+			r.MulCoeffsMontgomeryThenAdd(ctTmp.Value[1], eval.XPow2NTT[LogN][0], ctN.Value[1])
+		}
+	} else {
+		// Outside of the NTT domain: Y -> X^{2} on the coefficients and multiplication by X as a shift
+		SwitchCiphertextRingDegree(ctEvenNHalf.El(), ctN.El())
+
+		if ctOddNHalf != nil {
+			SwitchCiphertextRingDegree(ctOddNHalf.El(), ctTmp.El())
+			for i := range ctTmp.Value {
+				r.MultByMonomial(ctTmp.Value[i], 1, ctTmp.Value[i])
+				r.Add(ctN.Value[i], ctTmp.Value[i], ctN.Value[i])
+			}
+		}
 	}
 
 	// SkNHalf -> SkN
